@@ -372,6 +372,27 @@ func checkScenario(s scenario, fail func(string, ...any), exclBT bool) {
 
 	if got := send(wu, su, "POST"); strings.Join(got, ",") != strings.Join(failTrace, ",") {
 		fail("failure path after an update which changed nothing but on_error executed %v, expected %v\n%s", got, failTrace, su)
+
+		return
+	}
+
+	// a rule which writes down its error pipeline as an empty list defines no error handler: the stage is inherited
+	if len(s.R.EH) == 0 && s.OnError == nil {
+		se := s
+		se.OnError = []config.MechanismConfig{}
+
+		we, confErr, loadErr := build(se, true, nil)
+		if confErr != nil || loadErr != nil {
+			fail("rule with an empty on_error list refused: %v %v\n%s", confErr, loadErr, se)
+
+			return
+		}
+
+		vkit.Trace.Reset()
+
+		if got := send(we, se, "POST"); strings.Join(got, ",") != strings.Join(failTrace, ",") {
+			fail("failure path of a rule with an empty on_error list (on_error: []) executed %v, expected %v\n%s", got, failTrace, se)
+		}
 	}
 }
 
